@@ -671,6 +671,14 @@ impl Property for C03 {
             "% c\n\n",
             "a\x7fb",
             "\\a  b\\  c\\~ d",
+            // boundaries of the ^^c arithmetic (63/64) and of the hex-digit test
+            "^^?^^@^^>^^A",
+            "^^/a^^0a^^9a^^:a",
+            "^^`a^^aa^^fa^^ga",
+            "^^5/^^50^^59^^5:",
+            "^^5`^^5a^^5f^^5g",
+            "^^Aa^^5A^^FF^^ff^^7f^^80",
+            "\\^^?^^@ \\a^^0a^^:a",
         ] {
             for eol in [Some('\r'), None, Some('a'), Some('^')] {
                 v.push(lex_case(true, &plain(eol), s));
